@@ -942,9 +942,6 @@ func (g *gen) genCase(id int) *Case {
 			sv := SetVal{H: nd.h, Name: []string{"nosuch", "", "h"}[g.r.Intn(3)], Vals: []string{"v"}}
 			if len(nd.opts) > 0 && g.p(0.85) {
 				oi := nd.opts[g.r.Intn(len(nd.opts))]
-				if oi.kind == KMap {
-					continue
-				}
 				sv.Name = oi.keys[g.r.Intn(len(oi.keys))]
 				sv.Vals = nil
 				for n := []int{0, 1, 1, 1, 2, 3}[g.r.Intn(6)]; n > 0; n-- {
